@@ -11,7 +11,7 @@ from rustlex import AnchorError
 SEMANTIC = [
     (r"^postcondition not satisfied", "post"),
     (r"^precondition not satisfied", "pre"),
-    (r"^invariant not satisfied", "inv"),
+    (r"^(loop )?invariant not satisfied", "inv"),
     (r"^assertion failed", "assert"),
     (r"^decreases not satisfied", "decreases"),
     (r"^possible arithmetic (underflow|overflow|underflow/overflow)", "overflow"),
@@ -40,7 +40,7 @@ def run_unit(verif, repo, unit, workdir, rlimit=30, vacuity=False, threads=4):
     """returns dict(status=ok|fail|undecided, reason, functions, labels, errors, verified, n_errors,
     rule_counts, smt_ms, total_ms, cmd, assumptions)"""
     tpl = os.path.join(verif, "contracts", unit + ".rs.in")
-    out = os.path.join(workdir, unit + (".vacuity" if vacuity else "") + ".rs")
+    out = os.path.join(workdir, unit + ("_vacuity" if vacuity else "") + ".rs")
     res = {"unit": unit, "engine": "verus", "errors": [], "functions": [], "verified": 0, "n_errors": 0,
            "labels": [], "rule_counts": {}, "smt_ms": 0, "total_ms": 0, "cmd": "", "status": "undecided",
            "reason": "", "obligations": [], "failed": [], "assumptions": []}
